@@ -243,3 +243,59 @@ PROPS["C10"] = {
                   "supplier of every import, ambiguity and no-match errors; outputs are validated and decoded.",
     "level_note": "Resources are excluded from C10 libraries (their cross-interface identity is the subject of a recorded C01 finding).",
 }
+
+
+def _c16_post(total, violations, inconclusive, rundir):
+    """Cross-process comparison: every label must have one digest across all replicas."""
+    by_label = {}
+    replicas = total["notes"].get("list:digests", [])
+    for r in replicas:
+        for label, digest in r["digests"]:
+            by_label.setdefault(label, {}).setdefault(digest, []).append(r["replica"])
+    total["counters"]["labels-compared"] = len(by_label)
+    total["counters"]["replicas"] = len(replicas)
+    differing = 0
+    for label, digs in sorted(by_label.items()):
+        if len(digs) > 1:
+            differing += 1
+            kind = label.split(":")[0]
+            what = label.split(":")[-1] if kind != "fixture" else "pipeline"
+            violations.append({"prop": "C16", "seed": 0, "tier": "", "case": 0,
+                               "sig": f"C16:differs-across-processes:{kind}:{what}",
+                               "detail": f"{label}: {len(digs)} different digests across {len(replicas)} processes: "
+                                         + "; ".join(f"{d[:40]} in replicas {rs}" for d, rs in digs.items()),
+                               "input": {"label": label}})
+        # a label missing from some replica means that replica produced something else
+        seen = sum(len(v) for v in digs.values())
+        if seen != len(replicas):
+            inconclusive.append(f"label {label} recorded by {seen} of {len(replicas)} replicas")
+    probes = set(total["notes"].get("list:hash_probe", []))
+    total["counters"]["distinct-hash-orders-observed"] = len(probes)
+    total["counters"]["labels-differing"] = differing
+    total["notes"].pop("list:digests", None)
+    total["notes"]["hash_probe_orders"] = sorted(probes)[:8]
+
+
+PROPS["C16"] = {
+    "replicate": {"quick": 8, "thorough": 24},
+    "post": _c16_post,
+    "quick_budget_s": 90,
+    "thorough_budget_s": 900,
+    "floors": {"any": {"distinct-hash-orders-observed": 2, "labels-compared": 300, "composition:ok": 300,
+                       "document:printed": 300, "document:diagnostic": 300, "fixture:encoded": 100, "fixture:failed": 400}},
+    "rule": "Every one of N fresh worker processes (8 quick / 24 thorough; each with its own std RandomState seeds) runs the same "
+            "inputs: (a) generated compositions (3-8 instantiations of few packages so that many same-rank nodes exist, many "
+            "implicit and explicit imports, and in 2/3 of the cases 12 type definitions added in a shuffled order so that base "
+            "types are defined after their dependants), encoded in both dependency modes; (b) generated documents, printed, and "
+            "the rendered diagnostic of a token-level mutant; (c) every fixture document of the repository run through "
+            "parse -> discovery -> file-system resolver -> resolve -> encode (bytes or rendered diagnostic). SHA-256 of every "
+            "output is recorded under a label; in-process repetition and an encode of a cloned graph are compared by the worker, "
+            "digests across processes by the supervisor. evaluations counts executions over all processes; distinct_nontrivial "
+            "counts distinct labels. The run is inconclusive unless at least 2 distinct HashMap iteration orders were observed.",
+    "assumptions": ["per-process hash seeds cannot be forced, only observed (hash probe)"],
+    "technique": "runtime monitor: cross-process and in-process digest comparison of all outputs under differing hash randomisation",
+    "level_text": "Determinism is decided by re-executing identical inputs in several fresh processes with different hash seeds, on "
+                  "cloned graphs and twice in one process, and comparing SHA-256 digests of component bytes, printed text and "
+                  "rendered diagnostics.",
+    "level_note": "Order leaks that need a specific hash seed can be missed with 8-24 processes; the probe shows how many orders were seen.",
+}
